@@ -129,3 +129,471 @@ Definition kinds_same (ks : list kind) (f : kind -> bool) : bool :=
 Definition reg_kinds_ok (idx_kinds name_kinds : list kind) : bool :=
   kinds_same idx_kinds (fun k => match k with PO | PK => true | _ => false end) &&
   kinds_same name_kinds (fun k => match k with PK | KO => true | _ => false end).
+
+(* ====================================================================== *)
+(* Part 2: the shell around the binders                                    *)
+(* ====================================================================== *)
+
+(* ---- 2a. the conversions in the order the code performs them ----
+   Binding.run_pos / run_kw say WHICH unmarshaller meets which argument.  The code calls
+   them one by one, left to right, positional before keyword; an unmarshaller may raise, and
+   calling an absent varpos / varkwd (None) raises TypeError at that element.  A trace is
+   that sequence: None = "None(v)". *)
+Fixpoint sequence {A : Type} (l : list (option A)) : res (list A) :=
+  match l with
+  | [] => Ok []
+  | None :: _ => RaiseType
+  | Some a :: r => match sequence r with Ok t => Ok (a :: t) | RaiseType => RaiseType end
+  end.
+Fixpoint sequence_kw {A : Type} (l : list (nat * option A)) : res (list (nat * A)) :=
+  match l with
+  | [] => Ok []
+  | (k, Some a) :: r => match sequence_kw r with Ok t => Ok ((k, a) :: t) | RaiseType => RaiseType end
+  | (_, None) :: _ => RaiseType
+  end.
+
+Section Trace.
+Variable val : Type.
+Notation cv := (cv val).
+Definition var_trace (vp : option nat) (l : list val) : list (option cv) :=
+  map (fun v => match vp with Some p => Some (Conv p v) | None => None end) l.
+Definition trace_pos (m : posmode) (b : bstate) (args : list val) : list (option cv) :=
+  match m with
+  | PosIndex => map Some (by_index val (idxs b) 0 args)
+  | PosUntouched => map Some (map Raw args)
+  | PosVar => var_trace (varpos b) args
+  | PosSplit => map Some (by_index val (idxs b) 0 (slice_to val (startpos b) args))
+                ++ var_trace (varpos b) (slice_from val (startpos b) args)
+  end.
+Definition trace_kw1 (m : kwmode) (b : bstate) (k : nat) (v : val) : option cv :=
+  match run_kw1 val m b k v with Ok c => Some c | RaiseType => None end.
+Definition trace_kw (m : kwmode) (b : bstate) (kw : list (nat * val)) : list (nat * option cv) :=
+  map (fun kv => (fst kv, trace_kw1 m b (fst kv) (snd kv))) kw.
+End Trace.
+
+Section Shell.
+Variable val : Type.            (* Python values *)
+Variable E : Type.              (* exception values *)
+Variable type_error : E.        (* TypeError, as raised by the interpreter's argument binding and by None(v) *)
+Variable um : nat -> val -> val + E.    (* the unmarshaller built for parameter #p (NoOp when unannotated) *)
+Variable key_val : nat -> val.  (* the str object that is keyword name k (the `else k` idiom passes it on) *)
+Notation cv := (cv val).
+
+Definition eval_cv (c : option cv) : val + E :=
+  match c with
+  | None => inr type_error
+  | Some (Conv p v) => um p v
+  | Some (Raw v) => inl v
+  | Some (KeyAs k) => inl (key_val k)
+  end.
+Fixpoint eval_seq (l : list (option cv)) : list val + E :=
+  match l with
+  | [] => inl []
+  | c :: r => match eval_cv c with
+              | inr e => inr e
+              | inl v => match eval_seq r with inr e => inr e | inl t => inl (v :: t) end
+              end
+  end.
+Fixpoint eval_kws (l : list (nat * option cv)) : list (nat * val) + E :=
+  match l with
+  | [] => inl []
+  | (k, c) :: r => match eval_cv c with
+                   | inr e => inr e
+                   | inl v => match eval_kws r with inr e => inr e | inl t => inl ((k, v) :: t) end
+                   end
+  end.
+(* binder(args, kwargs) as executed: positional conversions, then keyword conversions; first exception wins *)
+Definition binder_eval (pm : posmode) (km : kwmode) (b : bstate) (args : list val) (kw : list (nat * val))
+  : (list val * list (nat * val)) + E :=
+  match eval_seq (trace_pos val pm b args) with
+  | inr e => inr e
+  | inl ua => match eval_kws (trace_kw val km b kw) with inr e => inr e | inl uk => inl (ua, uk) end
+  end.
+
+(* ---- 2b. bind / BoundRoutine.__call__ / wrap's closure ---- *)
+(* Hijacked x a k is produced only by the PINNED closure of wrap (before proposed_fixes/C10-reserved-keywords.diff):
+   it had a keyword-only parameter `__binding`, and a caller's keyword of that name REPLACED the binder:
+   x(a, k) was called in its place (what happens then is x's business) *)
+Inductive outcome (R : Type) :=
+| Ret (r : R) | Raise (e : E) | Hijacked (x : val) (args : list val) (kw : list (nat * val)).
+Arguments Ret {R}. Arguments Raise {R}. Arguments Hijacked {R}.
+Definition callable (R : Type) := list val -> list (nat * val) -> outcome R.
+
+Fixpoint kw_find (k : nat) (kw : list (nat * val)) : option val :=
+  match kw with [] => None | (k', v) :: r => if Nat.eqb k k' then Some v else kw_find k r end.
+Definition kw_remove (k : nat) (kw : list (nat * val)) : list (nat * val) :=
+  filter (fun kv => negb (Nat.eqb k (fst kv))) kw.
+
+Section Call.
+Variable R : Type.
+(* bargs, bkwargs = binding(args, kwargs); return obj( *bargs, **bkwargs )
+   This is BoundRoutine.__call__(self, /, *args, **kwargs) and binding_wrapper( *args, **kwargs ) with the
+   binder as a closure variable: every keyword of the caller reaches the binder. *)
+Definition shell_call (c : bcls) (b : bstate) (f : callable R) : callable R := fun args kw =>
+  match binder_eval (posmode_of c) (kwmode_of c) b args kw with
+  | inr e => Raise e
+  | inl (ua, uk) => f ua uk
+  end.
+(* bind(obj) / wrap(obj) for a non-class obj whose signature is s.  None: KeyError when decorating
+   (the matrix has no row for the signature's kind-presence tuple) *)
+Definition bind (rows : list row) (s : sig) (f : callable R) : option (callable R) :=
+  match matrix_lookup rows (truth_of s) with
+  | None => None | Some c => Some (shell_call c (get_binding s) f) end.
+Definition wrap_fn (rows : list row) (s : sig) (f : callable R) : option (callable R) :=
+  match matrix_lookup rows (truth_of s) with
+  | None => None | Some c => Some (shell_call c (get_binding s) f) end.
+(* api = true: wrap; api = false: bind *)
+Definition api_apply (api : bool) (rows : list row) (s : sig) (f : callable R) : option (callable R) :=
+  if api then wrap_fn rows s f else bind rows s f.
+
+(* the code as PINNED (before the repair), kept for the refutations:
+   BoundRoutine.__call__(self, *args, **kwargs): a keyword named like its own first parameter was refused by
+   the interpreter before anything ran *)
+Definition bound_routine_call_pinned (self_name : nat) (c : bcls) (b : bstate) (f : callable R) : callable R :=
+  fun args kw => match kw_find self_name kw with Some _ => Raise type_error | None => shell_call c b f args kw end.
+(* binding_wrapper( *args, __binding=binding, **kwargs ) *)
+Definition wrapper_call_pinned (reserved : nat) (c : bcls) (b : bstate) (f : callable R) : callable R :=
+  fun args kw => match kw_find reserved kw with
+                 | Some x => Hijacked x args (kw_remove reserved kw)
+                 | None => shell_call c b f args kw end.
+Definition bind_pinned (self_name : nat) (rows : list row) (s : sig) (f : callable R) : option (callable R) :=
+  match matrix_lookup rows (truth_of s) with
+  | None => None | Some c => Some (bound_routine_call_pinned self_name c (get_binding s) f) end.
+Definition wrap_fn_pinned (reserved : nat) (rows : list row) (s : sig) (f : callable R) : option (callable R) :=
+  match matrix_lookup rows (truth_of s) with
+  | None => None | Some c => Some (wrapper_call_pinned reserved c (get_binding s) f) end.
+End Call.
+
+(* ---- 2c. the interpreter's own call rule: obj( *a, **k ) for a Python-level function ----
+   One slot per parameter, in signature order.  SDefault: the parameter was not passed and took
+   its default (filled in by the interpreter INSIDE the call of obj: the binder never sees it). *)
+Inductive slot := SArg (v : val) | SDefault (d : val) | SVarPos (l : list val) | SVarKw (l : list (nat * val)).
+Definition frame := list slot.
+Definition named (s : sig) (k : nat) : bool := existsb (fun p => kw_capable p && Nat.eqb (pname p) k) s.
+
+Definition kw_or_default (def : nat -> option val) (p : param) (i : nat) (kw : list (nat * val)) : option slot :=
+  match kw_find (pname p) kw with
+  | Some v => Some (SArg v)
+  | None => match def i with Some d => Some (SDefault d) | None => None end
+  end.
+Definition ocons {A : Type} (a : option A) (r : option (list A)) : option (list A) :=
+  match a, r with Some x, Some t => Some (x :: t) | _, _ => None end.
+
+Fixpoint bind_params (def : nat -> option val) (sall s : sig) (i : nat) (args : list val) (kw : list (nat * val))
+  : option frame :=
+  match s with
+  | [] => match args with [] => Some [] | _ :: _ => None end     (* too many positional arguments *)
+  | p :: r =>
+    match pkind p with
+    | PO => match args with
+            | a :: args' => ocons (Some (SArg a)) (bind_params def sall r (S i) args' kw)
+            | [] => ocons (match def i with Some d => Some (SDefault d) | None => None end)
+                          (bind_params def sall r (S i) [] kw)
+            end
+    | PK => match args with
+            | a :: args' => match kw_find (pname p) kw with
+                            | Some _ => None                        (* multiple values for the parameter *)
+                            | None => ocons (Some (SArg a)) (bind_params def sall r (S i) args' kw) end
+            | [] => ocons (kw_or_default def p i kw) (bind_params def sall r (S i) [] kw)
+            end
+    | VP => ocons (Some (SVarPos args)) (bind_params def sall r (S i) [] kw)
+    | KO => match args with
+            | _ :: _ => None
+            | [] => ocons (kw_or_default def p i kw) (bind_params def sall r (S i) [] kw)
+            end
+    | VK => match args with
+            | _ :: _ => None
+            | [] => ocons (Some (SVarKw (filter (fun kv => negb (named sall (fst kv))) kw)))
+                          (bind_params def sall r (S i) [] kw)
+            end
+    end
+  end.
+(* an unexpected keyword is refused unless there is a var-keyword parameter *)
+Definition kw_accepted (s : sig) (kw : list (nat * val)) : bool :=
+  has VK s || forallb (fun kv => named s (fst kv)) kw.
+Definition py_bind (def : nat -> option val) (s : sig) (args : list val) (kw : list (nat * val)) : option frame :=
+  if kw_accepted s kw then bind_params def s s 0 args kw else None.
+
+(* a Python function: signature, defaults, body *)
+Record pyfun (R : Type) := { f_sig : sig; f_def : nat -> option val; f_body : frame -> outcome R }.
+Arguments f_sig {R}. Arguments f_def {R}. Arguments f_body {R}.
+Definition call_fn {R : Type} (pf : pyfun R) : callable R := fun args kw =>
+  match py_bind (f_def pf) (f_sig pf) args kw with
+  | None => Raise type_error
+  | Some fr => f_body pf fr
+  end.
+
+(* the property's right-hand side: every PASSED value converted by its own parameter's unmarshaller,
+   defaults as they are, each element of *args / each value of **kwargs by that parameter's *)
+Fixpoint conv_list (p : nat) (l : list val) : list val + E :=
+  match l with
+  | [] => inl []
+  | v :: r => match um p v with
+              | inr e => inr e
+              | inl u => match conv_list p r with inr e => inr e | inl t => inl (u :: t) end end
+  end.
+Fixpoint conv_kwlist (p : nat) (l : list (nat * val)) : list (nat * val) + E :=
+  match l with
+  | [] => inl []
+  | (k, v) :: r => match um p v with
+                   | inr e => inr e
+                   | inl u => match conv_kwlist p r with inr e => inr e | inl t => inl ((k, u) :: t) end end
+  end.
+Definition conv_slot (i : nat) (sl : slot) : slot + E :=
+  match sl with
+  | SArg v => match um i v with inl u => inl (SArg u) | inr e => inr e end
+  | SDefault d => inl (SDefault d)
+  | SVarPos l => match conv_list i l with inl t => inl (SVarPos t) | inr e => inr e end
+  | SVarKw l => match conv_kwlist i l with inl t => inl (SVarKw t) | inr e => inr e end
+  end.
+Fixpoint conv_frame (i : nat) (fr : frame) : frame + E :=
+  match fr with
+  | [] => inl []
+  | sl :: r => match conv_slot i sl with
+               | inr e => inr e
+               | inl u => match conv_frame (S i) r with inr e => inr e | inl t => inl (u :: t) end end
+  end.
+
+(* the conversions the specification (Binding.expected_pos / expected_kw) asks for, in call order *)
+Definition conv_call (s : sig) (args : list val) (kw : list (nat * val)) : option ((list val * list (nat * val)) + E) :=
+  match expected_pos val s args, expected_kw val s kw with
+  | Some ea, Some ek =>
+    Some match eval_seq (map Some ea) with
+         | inr e => inr e
+         | inl ua => match eval_kws (map (fun kc => (fst kc, Some (snd kc))) ek) with
+                     | inr e => inr e | inl uk => inl (ua, uk) end
+         end
+  | _, _ => None
+  end.
+
+(* positional binding read recursively (equals expected_pos on well-formed signatures) *)
+Fixpoint exp_pos_suffix (r : sig) (i : nat) (args : list val) {struct args} : option (list cv) :=
+  match args with
+  | [] => Some []
+  | a :: args' =>
+    match r with
+    | [] => None
+    | p :: r' => match pkind p with
+                 | PO | PK => match exp_pos_suffix r' (S i) args' with Some t => Some (Conv i a :: t) | None => None end
+                 | VP => Some (map (Conv i) args)
+                 | _ => None
+                 end
+    end
+  end.
+
+(* parameter names are pairwise distinct (the compiler refuses anything else) *)
+Fixpoint distinct_names (s : sig) : bool :=
+  match s with [] => true | p :: r => negb (existsb (fun q => Nat.eqb (pname q) (pname p)) r) && distinct_names r end.
+
+(* ---- 2d. methods and classes: the self parameter ----
+   A bound method / callable instance is a callable whose signature has no self: the cases above.
+   wrap(cls) replaces cls.__init__ by wrap(cls.__init__): a plain function whose first parameter is
+   self -- positional-only when the signature has a `/`, positional-or-keyword otherwise, unannotated. *)
+Definition self_param (self_name : nat) (s : sig) : param :=
+  {| pname := self_name; pkind := if has PO s then PO else PK; pann := false |}.
+Definition init_sig (self_name : nat) (s : sig) : sig := self_param self_name s :: s.
+
+End Shell.
+
+Arguments Ret {val E R}. Arguments Raise {val E R}. Arguments Hijacked {val E R}.
+Arguments SArg {val}. Arguments SDefault {val}. Arguments SVarPos {val}. Arguments SVarKw {val}.
+Arguments f_sig {val E R}. Arguments f_def {val E R}. Arguments f_body {val E R}.
+
+(* ---- 2e. wrap(cls) on a class hierarchy ----
+   Function objects: object.__init__, an original function (by id), or a binding_wrapper around
+   another function object.  A class has a base (None: object) and possibly an __init__ of its own. *)
+Inductive fnobj := FObjectInit | FOrig (id : nat) | FWrap (inner : fnobj).
+Record pyclass := { c_base : option nat; c_init : option fnobj }.
+Definition cenv := nat -> option pyclass.
+Definition cenv_set (Ev : cenv) (c : nat) (k : pyclass) : cenv := fun d => if Nat.eqb d c then Some k else Ev d.
+(* attribute lookup of __init__ along the MRO (single inheritance); fuel = length of the chain *)
+Fixpoint resolve_init (fuel : nat) (Ev : cenv) (c : nat) : option fnobj :=
+  match fuel with
+  | 0 => None
+  | S n => match Ev c with
+           | None => None
+           | Some k => match c_init k with
+                       | Some f => Some f
+                       | None => match c_base k with Some b => resolve_init n Ev b | None => Some FObjectInit end
+                       end
+           end
+  end.
+(* wrap(cls): obj.__init__ = wrap(obj.__init__)  -- whatever the lookup finds, stored in cls's own dict *)
+Definition wrap_class (fuel : nat) (Ev : cenv) (c : nat) : cenv :=
+  match Ev c, resolve_init fuel Ev c with
+  | Some k, Some f => cenv_set Ev c {| c_base := c_base k; c_init := Some (FWrap f) |}
+  | _, _ => Ev
+  end.
+Fixpoint wrap_classes (fuel : nat) (Ev : cenv) (cs : list nat) : cenv :=
+  match cs with [] => Ev | c :: r => wrap_classes fuel (wrap_class fuel Ev c) r end.
+Fixpoint layers (f : fnobj) : nat := match f with FWrap g => S (layers g) | _ => 0 end.
+Fixpoint innermost (f : fnobj) : fnobj := match f with FWrap g => innermost g | _ => f end.
+
+Section Apply.
+Variables (val E : Type) (type_error : E) (um : nat -> val -> val + E) (key_val : nat -> val) (R : Type).
+Variable rows : list row.
+Variable sig_of : nat -> sig.                    (* signature of original function #id (self included) *)
+Variable body_of : nat -> callable val E R.      (* what original function #id does *)
+Variable object_init : callable val E R.
+(* inspect.signature follows __wrapped__: every wrapper has the signature of the innermost function *)
+Definition fn_sig (f : fnobj) : option sig :=
+  match innermost f with FOrig i => Some (sig_of i) | _ => None end.
+Fixpoint apply_fn (f : fnobj) : option (callable val E R) :=
+  match f with
+  | FObjectInit => Some object_init
+  | FOrig i => Some (body_of i)
+  | FWrap g => match apply_fn g, fn_sig g with
+               | Some h, Some s => wrap_fn val E type_error um key_val R rows s h
+               | _, _ => None end
+  end.
+End Apply.
+
+(* ---- 2f. functools.wraps: metadata as data ----
+   WRAPPER_ASSIGNMENTS are copied when the wrapped object HAS the attribute (a callable instance has
+   no __name__ / __qualname__: the wrapper keeps its own), __dict__ is merged, __wrapped__ is set. *)
+Record meta := { m_name : option nat; m_qualname : option nat; m_doc : option nat; m_module : option nat;
+                 m_dict : list (nat * nat); m_wrapped : option nat }.
+Definition or_own (src own : option nat) : option nat := match src with Some x => Some x | None => own end.
+Fixpoint dict_set (k v : nat) (d : list (nat * nat)) : list (nat * nat) :=
+  match d with [] => [(k, v)] | (k', v') :: r => if Nat.eqb k k' then (k, v) :: r else (k', v') :: dict_set k v r end.
+Fixpoint dict_update (d upd : list (nat * nat)) : list (nat * nat) :=
+  match upd with [] => d | (k, v) :: r => dict_update (dict_set k v d) r end.
+Definition wraps (src_id : nat) (src own : meta) : meta :=
+  {| m_name := or_own (m_name src) (m_name own); m_qualname := or_own (m_qualname src) (m_qualname own);
+     m_doc := or_own (m_doc src) (m_doc own); m_module := or_own (m_module src) (m_module own);
+     m_dict := dict_update (m_dict own) (m_dict src); m_wrapped := Some src_id |}.
+
+(* ====================================================================== *)
+(* Part 3: the executable instance the per-run tie evaluates (vm_compute)  *)
+(* ====================================================================== *)
+(* values as the harness observes them: a raw argument, the result of the tagging unmarshaller of
+   parameter p, a keyword name passed as value, the instance under construction *)
+Inductive tval := TRaw (n : nat) | TConv (p : nat) (v : tval) | TKey (k : nat) | TInst.
+Inductive texn := XType | XConv (p : nat) (v : tval).
+Fixpoint tval_eqb (a b : tval) : bool :=
+  match a, b with
+  | TRaw n, TRaw m => Nat.eqb n m
+  | TConv p v, TConv q w => Nat.eqb p q && tval_eqb v w
+  | TKey k, TKey l => Nat.eqb k l
+  | TInst, TInst => true
+  | _, _ => false
+  end.
+(* the tagging unmarshallers of the harness refuse raw values 500..799 *)
+Definition poisoned (v : tval) : bool := match v with TRaw n => (500 <=? n) && (n <? 800) | _ => false end.
+Definition um_tie (s : sig) (p : nat) (v : tval) : tval + texn :=
+  if annotated s p then (if poisoned v then inr (XConv p v) else inl (TConv p v)) else inl v.
+
+Inductive oslot := OVal (v : tval) | OVarPos (l : list tval) | OVarKw (l : list (nat * tval)).
+Inductive tobs :=
+| ORet (fr : list oslot) | ORaiseType | ORaiseConv (p : nat) (v : tval)
+| OHijack (x : tval) (args : list tval) (kw : list (nat * tval))   (* only the pinned closure of wrap does this *)
+| ODecorError.
+Definition obs_slot (sl : slot tval) : oslot :=
+  match sl with SArg v => OVal v | SDefault d => OVal d | SVarPos l => OVarPos l | SVarKw l => OVarKw l end.
+Definition obs_outcome (o : outcome tval texn (frame tval)) : tobs :=
+  match o with
+  | Ret fr => ORet (map obs_slot fr)
+  | Raise XType => ORaiseType
+  | Raise (XConv p v) => ORaiseConv p v
+  | Hijacked x a k => OHijack x a k
+  end.
+Fixpoint tlist_eqb {A : Type} (e : A -> A -> bool) (a b : list A) : bool :=
+  match a, b with [], [] => true | x :: r, y :: t => e x y && tlist_eqb e r t | _, _ => false end.
+Definition tkw_eqb (a b : nat * tval) : bool := Nat.eqb (fst a) (fst b) && tval_eqb (snd a) (snd b).
+Definition oslot_eqb (a b : oslot) : bool :=
+  match a, b with
+  | OVal v, OVal w => tval_eqb v w
+  | OVarPos l, OVarPos m => tlist_eqb tval_eqb l m
+  | OVarKw l, OVarKw m => tlist_eqb tkw_eqb l m
+  | _, _ => false
+  end.
+Definition tobs_eqb (a b : tobs) : bool :=
+  match a, b with
+  | ORet f, ORet g => tlist_eqb oslot_eqb f g
+  | ORaiseType, ORaiseType => true
+  | ORaiseConv p v, ORaiseConv q w => Nat.eqb p q && tval_eqb v w
+  | OHijack x a k, OHijack y b l => tval_eqb x y && tlist_eqb tval_eqb a b && tlist_eqb tkw_eqb k l
+  | ODecorError, ODecorError => true
+  | _, _ => false
+  end.
+
+Definition tie_reserved : nat := 999.     (* the keyword name __binding (reserved by wrap's closure as pinned) *)
+Definition tie_self : nat := 998.         (* the name self (parameter of __init__; reserved by bind as pinned) *)
+Definition tie_def (ds : list (option nat)) (i : nat) : option tval :=
+  match nth_error ds i with Some (Some n) => Some (TRaw n) | _ => None end.
+Definition tie_fun (s : sig) (ds : list (option nat)) : pyfun tval texn (frame tval) :=
+  {| f_sig := s; f_def := tie_def ds; f_body := fun fr => Ret fr |}.
+
+(* (i) a function / bound method / callable instance / class under bind, of signature s:
+   wrapped `nwrap` times, then (top_bind) handed to bind; called with args, kw *)
+Fixpoint wrap_n (rows : list row) (s : sig) (n : nat) (f : callable tval texn (frame tval))
+  : option (callable tval texn (frame tval)) :=
+  match n with
+  | 0 => Some f
+  | S m => match wrap_n rows s m f with
+           | Some g => wrap_fn tval texn XType (um_tie s) TKey (frame tval) rows s g
+           | None => None end
+  end.
+Definition fn_case := (sig * list (option nat) * nat * bool * list tval * list (nat * tval) * tobs)%type.
+Definition fn_case_model (rows : list row) (c : fn_case) : tobs :=
+  match c with (s, ds, nwrap, top_bind, args, kw, _) =>
+    match wrap_n rows s nwrap (call_fn tval texn XType (tie_fun s ds)) with
+    | None => ODecorError
+    | Some g => if top_bind
+                then match bind tval texn XType (um_tie s) TKey (frame tval) rows s g with
+                     | None => ODecorError | Some h => obs_outcome (h args kw) end
+                else obs_outcome (g args kw)
+    end
+  end.
+Definition fn_case_ok (rows : list row) (c : fn_case) : bool :=
+  match c with (_, _, _, _, _, _, obs) => tobs_eqb (fn_case_model rows c) obs end.
+
+(* (ii) a class hierarchy: classes (id, base, own __init__ id), original __init__ functions
+   (id, signature with self, defaults), the classes handed to wrap in that order, then a call of class c *)
+Definition cls_case := (list (nat * option nat * option nat) * list (nat * sig * list (option nat)) * list nat
+                        * nat * list tval * list (nat * tval) * tobs)%type.
+Fixpoint cenv_of (l : list (nat * option nat * option nat)) : cenv :=
+  match l with
+  | [] => fun _ => None
+  | (c, b, i) :: r => cenv_set (cenv_of r) c {| c_base := b; c_init := match i with Some n => Some (FOrig n) | None => None end |}
+  end.
+Fixpoint fun_lookup (fs : list (nat * sig * list (option nat))) (i : nat) : sig * list (option nat) :=
+  match fs with [] => ([], []) | (j, s, ds) :: r => if Nat.eqb i j then (s, ds) else fun_lookup r i end.
+Definition cls_case_model (rows : list row) (c : cls_case) : tobs :=
+  match c with (cl, fs, ops, target, args, kw, _) =>
+    let fuel := S (length cl) in
+    let Ev := wrap_classes fuel (cenv_of cl) ops in
+    match resolve_init fuel Ev target with
+    | None => ODecorError
+    | Some f =>
+      let s := match innermost f with FOrig i => fst (fun_lookup fs i) | _ => [] end in
+      match apply_fn tval texn XType (um_tie s) TKey (frame tval) rows
+                     (fun i => fst (fun_lookup fs i))
+                     (fun i => call_fn tval texn XType (tie_fun (fst (fun_lookup fs i)) (snd (fun_lookup fs i))))
+                     (fun _ _ => Raise XType) f with
+      | None => ODecorError
+      | Some g => obs_outcome (g (TInst :: args) kw)
+      end
+    end
+  end.
+Definition cls_case_ok (rows : list row) (c : cls_case) : bool :=
+  match c with (_, _, _, _, _, _, obs) => tobs_eqb (cls_case_model rows c) obs end.
+
+(* (iii) metadata *)
+Definition onat_eqb (a b : option nat) : bool :=
+  match a, b with Some x, Some y => Nat.eqb x y | None, None => true | _, _ => false end.
+Definition pair_eqb (a b : nat * nat) : bool := Nat.eqb (fst a) (fst b) && Nat.eqb (snd a) (snd b).
+Fixpoint dict_sub (a b : list (nat * nat)) : bool :=    (* every binding of a is in b *)
+  match a with [] => true | x :: r => existsb (pair_eqb x) b && dict_sub r b end.
+Definition meta_eqb (a b : meta) : bool :=
+  onat_eqb (m_name a) (m_name b) && onat_eqb (m_qualname a) (m_qualname b) && onat_eqb (m_doc a) (m_doc b) &&
+  onat_eqb (m_module a) (m_module b) && onat_eqb (m_wrapped a) (m_wrapped b) &&
+  dict_sub (m_dict a) (m_dict b) && dict_sub (m_dict b) (m_dict a).
+Definition meta_case := (nat * meta * meta * meta)%type.     (* id of src, src, the bare wrapper, observed wrapper *)
+Definition meta_case_ok (c : meta_case) : bool :=
+  match c with (i, src, own, obs) => meta_eqb (wraps i src own) obs end.
+
+(* indexes of the cases on which model and observation differ *)
+Fixpoint bad_from {A : Type} (ok : A -> bool) (l : list A) (i : nat) : list nat :=
+  match l with [] => [] | x :: r => (if ok x then [] else [i]) ++ bad_from ok r (S i) end.
+Definition bad_cases {A : Type} (ok : A -> bool) (l : list A) : list nat := bad_from ok l 0.
